@@ -208,6 +208,9 @@ func instrRun(c *core.Ctx) {
 			continue
 		}
 		fc := FrozenCase{Ops: []string{o.Name}, Every: every}
+		if battery(o.Name) {
+			fc.Every = 257 // long executions: the globals are hashed every 257th statement and at the end
+		}
 		key, msg, probes := checkFrozen(fc, byName, c.Scratch)
 		c.Transitions += probes
 		c.Extra["frozen_globals_probes"] += probes
@@ -275,6 +278,12 @@ func instrRun(c *core.Ctx) {
 			if c.Tier == core.Quick && family(a.Name) != family(b.Name) && !probes[a.Name] && !probes[b.Name] {
 				continue
 			}
+			if battery(a.Name) || battery(b.Name) {
+				// batteries (one operation = many reads) are for the sequential stages: what they leave behind shows
+				// in the globals hash and in what the other operations return afterwards; their executions are too
+				// long for the schedule enumeration and add nothing there that the single reads do not
+				continue
+			}
 			for order := 0; order < 2; order++ {
 				if i == j && order == 1 {
 					continue
@@ -309,6 +318,10 @@ func instrRun(c *core.Ctx) {
 
 // family groups operations by the tables they can collide on: the format for readers and writers, "list" for
 // the transformations, "files" for the file helpers.
+func battery(name string) bool {
+	return name == "read-ttml-language-tags" || name == "read-ttml-colours-and-times" || name == "read-stl-language-and-code-page-codes" || name == "read-ssa-style-names-and-colours"
+}
+
 func family(name string) string {
 	for _, pre := range []string{"read-", "write-"} {
 		if strings.HasPrefix(name, pre) {
